@@ -5,8 +5,16 @@ import json, os, subprocess, sys
 repo = sys.argv[1] if len(sys.argv) > 1 else "/repo"
 base = json.load(open("/root/.vp/BASELINE.json"))
 stable = set(base["stable_pass"])
+import tempfile, shutil, atexit
 env = dict(os.environ, GOFLAGS="-mod=mod", GOPROXY="off")
 env.pop("GOSUMDB", None)
+# a private temporary directory: artifact/image/unpack compares listings of os.TempDir() taken
+# milliseconds apart, which other processes writing to /tmp make fail
+_tmp = tempfile.mkdtemp(prefix="baseline-tmp-")
+_gotmp = tempfile.mkdtemp(prefix="baseline-gotmp-")
+atexit.register(lambda: (shutil.rmtree(_tmp, ignore_errors=True), shutil.rmtree(_gotmp, ignore_errors=True)))
+env["TMPDIR"] = _tmp
+env["GOTMPDIR"] = _gotmp
 p = subprocess.run(["go", "test", "-json", "-vet=off", "-count=1", "-timeout", "25m", "./..."], cwd=repo, env=env,
                    stdout=subprocess.PIPE, stderr=subprocess.DEVNULL, text=True)
 res = {}
